@@ -24,6 +24,7 @@ META = {
         "outside constructors and the test-only clear_state."
     ),
 }
+META["explanation"] += ' C12.R5: every zone promotion is followed on all paths by a rebuild of the probe table. C12.R6: in Gateway.start the restored discovery flag dominates the test guarding initiate_discovery().'
 
 H = "ramses_rf.system.heat"
 Z = "ramses_rf.system.zones"
